@@ -360,6 +360,17 @@ class Program:
         cache[fn.id] = out
         return out
 
+    def drop_closure(self, cid):
+        """A closure that has been spliced into its parent stops being a body of its own."""
+        f = self.fns.pop(cid, None)
+        if f is None:
+            return
+        self.by_name[f.name] = [x for x in self.by_name[f.name] if x.id != cid]
+        for par in list(self._closures_of):
+            self._closures_of[par] = [x for x in self._closures_of[par] if x.id != cid]
+        self._callers = None
+        self.__dict__.pop("_fnitems", None)
+
     def adopt_closures(self, new_parent_id, old_parent_id):
         for c in self._closures_of.get(old_parent_id, []):
             if c not in self._closures_of[new_parent_id]:
